@@ -1137,7 +1137,8 @@ def _expr_of_block(stmts, fall, depth=0):
         if uses > 1 and not isinstance(s.value, (ast.Constant, ast.Name, ast.Attribute)):
             return None  # do not duplicate computations
         return _subst(r, {s.targets[0].id: s.value})
-    if isinstance(s, ast.If) and _is_simple_expr(s.test):
+    if isinstance(s, ast.If):
+        # the test is evaluated first and exactly one arm afterwards, as in the statement form: no purity needed
         r = _expr_of_block(rest, fall, depth + 1)
         if r is None:
             return None
